@@ -158,7 +158,7 @@ func runMem(c memCase) (string, caseStat, *arena) {
 	if n, spare := k.a.longest(); n >= 0 {
 		cl := "size." + sizeClass(n)
 		st.classes = append(st.classes, cl)
-		if n >= bigFrom {
+		if n >= bigFrom-64 { // from "just below 1 KiB" on
 			st.classes = append(st.classes, "size.large")
 			if spare && k.reached {
 				st.classes = append(st.classes, "size.large.reached.with-spare", cl+".reached.with-spare")
@@ -244,12 +244,16 @@ func drawCase(rt *rapid.T, o op, big int) memCase {
 	if !o.sized(c.Alg, c.Mode) {
 		big = 0
 	}
-	c.Len = drawLen(rt, "len", big, rapid.OneOf(rapid.SampledFrom(sweepLens), rapid.IntRange(0, 200)))
+	thr := sizeThresholds
+	if granularity(o, c.Alg) == 8 {
+		thr = sizeThresholds[:5] // key wrap does six block encryptions per 8 bytes: the random cases stay at or below 16 KiB (SizeSweep goes through all the switch points)
+	}
+	c.Len = drawLen(rt, "len", big, thr, rapid.OneOf(rapid.SampledFrom(sweepLens), rapid.IntRange(0, 200)))
 	aadBig := 0
 	if o.Aad && big > 0 {
 		aadBig = 1
 	}
-	c.AadLen = drawLen(rt, "aadLen", aadBig, rapid.OneOf(rapid.Just(0), rapid.IntRange(0, 40)))
+	c.AadLen = drawLen(rt, "aadLen", aadBig, sizeThresholds, rapid.OneOf(rapid.Just(0), rapid.IntRange(0, 40)))
 	c.Spare = rapid.SliceOfN(rapid.OneOf(rapid.IntRange(0, 64), rapid.SampledFrom([]int{0, 1, 15, 16, 17, 32, 64})), 1, 6).Draw(rt, "spare")
 	if o.DstOp {
 		c.Dst = rapid.SampledFrom(dstForms).Draw(rt, "dst")
